@@ -105,7 +105,8 @@ def work(chunk, tier='quick'):
 def run_multi(ctx):
     items = c04.items(ctx)
     if ctx.quick:
-        items = items[ctx.seed % 2::2]
+        # every point kind stays in (the points differ in their per-variable steps); the function specs alternate
+        items = [it for k, it in enumerate(items) if (k // 4 + ctx.seed) % 2 == 0 or it[2] == 'mixed']
     return ctx.pmap(work, items, chunk=2, tier=ctx.tier)
 
 
